@@ -375,6 +375,69 @@ func runC06(c *Ctx) {
 				return ok && !isNilF && eng.IsObj(ginfo, x, bestObj)
 			})
 			c.Check(K(g.Name, "no corrective puts after abort"), up.Pos(), gA && gB && abortedObj != nil, "corrective puts are sent only for a search that ended normally with a value", "updatePeerValues not guarded by !aborted && best != nil")
+			// the corrective puts outlive the search: updatePeerValues only starts them, so the
+			// context they run under must not end when the search's own goroutine or the
+			// caller's request does (D18: the accelerated client cancelled it right after the call)
+			if len(up.Args) == 4 {
+				recvT := tw[2 : len(tw)-1] // "(*pkg.T)" -> "pkg.T"
+				var cancels []eng.Object
+				var derives func(e ast.Expr, depth int) bool
+				derives = func(e ast.Expr, depth int) bool {
+					e = eng.Unparen(e)
+					if depth > 4 {
+						return false
+					}
+					if eng.IsField(ginfo, e, recvT+".ctx") {
+						return true
+					}
+					o := eng.ObjOf(ginfo, e)
+					if o == nil {
+						return false
+					}
+					okAll, n := true, 0
+					for h := g; h != nil; h = h.Parent {
+						h.Walk(func(x ast.Node) bool {
+							as, isAs := x.(*ast.AssignStmt)
+							if !isAs || len(as.Rhs) != 1 {
+								return true
+							}
+							for i, l := range as.Lhs {
+								if eng.ObjOf(h.Info(), l) != o || i != 0 {
+									continue
+								}
+								n++
+								call, isCall := eng.Unparen(as.Rhs[0]).(*ast.CallExpr)
+								if !isCall || len(call.Args) == 0 || !derives(call.Args[0], depth+1) {
+									okAll = false
+									continue
+								}
+								if len(as.Lhs) == 2 {
+									if co := eng.ObjOf(h.Info(), as.Lhs[1]); co != nil {
+										cancels = append(cancels, co)
+									}
+								}
+							}
+							return true
+						})
+					}
+					return okAll && n >= 1
+				}
+				okCtx := derives(up.Args[0], 0)
+				cancelled := false
+				if okCtx {
+					g.Walk(func(x ast.Node) bool {
+						if call, isCall := x.(*ast.CallExpr); isCall {
+							for _, co := range cancels {
+								if eng.IsObj(ginfo, call.Fun, co) {
+									cancelled = true
+								}
+							}
+						}
+						return true
+					})
+				}
+				c.Check(K(g.Name, "corrective puts outlive the search"), up.Pos(), okCtx && !cancelled, "the corrective puts are started under the client's lifetime context (each with its own timeout), not under a context that ends with the search or the caller's request — updatePeerValues returns as soon as it has started them", "the context handed to updatePeerValues is request-bound, or is cancelled by the goroutine that started the puts")
+			}
 			// arguments: best value, the filtered list
 			okArgs := len(up.Args) == 4 && eng.IsObj(ginfo, up.Args[2], bestObj)
 			var lst eng.Object
